@@ -37,6 +37,8 @@ type Stats struct {
 	States      int64 // symbolic states after merging (scheduling points) + terminal
 	Transitions int64
 	Merged      int64
+	Livelocked  int64
+	Revisits    int64 // states reached again in a later layer (cycles); not re-explored
 	Layers      int
 	Asserts     int64 // assertion instances checked
 	AssertQ     int64 // assertion instances that needed the solver
@@ -106,6 +108,7 @@ type Engine struct {
 	fnIDs     map[*ssa.Function]int32
 	typeIDs   map[string]int32
 	PoolPrecise bool
+	stopped   bool
 	fnCount   map[*ssa.Function]int64
 	canonBufs []*bytes.Buffer
 	canonNums [][]int32
